@@ -34,7 +34,7 @@ STDLIB_SCOPE = scope_prefix("stdlib::", "<stdlib::", "variable::try_from::", "<v
 
 prop("C01",
      [guard.run, guard.run_mustcall, misc.run_fnexit, misc.run_looptype, misc.run_slicetype, misc.run_celltype, queryguard.run, round11.run_queryimpl, fold.run, scope.run, round3.run_meetuse, round4.run_meetoperand, round3.run_assigntyping, round3.run_cellmember, lock.run_global, lock.run, round4.run_fnlocal, variance.run, round10.run_retkind, round11.run_parsescope],
-     "R-LOCK (a cell read without its lock, or through a second lock, lets a checked value change under the reader). R-VARIANCE: every assignability test of the checker goes through Type::matches, whose direction clauses and mandatory conjuncts are part of soundness. R-FNLOCAL: the scope entry of a function literal carries its result type. Also R-GLOBAL: no cache of parse results outlives the scope they were checked against. Also: Type::conjoin (a mere lower bound) is used only for parameter types (R-MEETUSE); `X=` is typed with the typing functions of X (R-ASSIGNTYPING). Decides the structural half of type soundness: all 43 static checks the soundness argument leans on exist, are tested "
+     "R-QUERYIMPL: the admissibility predicate of `+` `@` `\\` `$]` implies every Type query the result type unwraps (symbolic boolean paths). R-PARSESCOPE: a top-level statement is folded against the scope as it was before it. R-MEETOPERAND: conjoin answers with no constant but `!`. R-LOCK (a cell read without its lock, or through a second lock, lets a checked value change under the reader). R-VARIANCE: every assignability test of the checker goes through Type::matches, whose direction clauses and mandatory conjuncts are part of soundness. R-FNLOCAL: the scope entry of a function literal carries its result type. Also R-GLOBAL: no cache of parse results outlives the scope they were checked against. Also: Type::conjoin (a mere lower bound) is used only for parameter types (R-MEETUSE); `X=` is typed with the typing functions of X (R-ASSIGNTYPING). Decides the structural half of type soundness: all 43 static checks the soundness argument leans on exist, are tested "
      "before every success value of their creation function and cannot be bypassed (R-GUARD, R-MUSTCALL); falling off a function "
      "body yields () and MissingReturn stands in front of that for non-() functions (R-FNEXIT); the Type queries that compute "
      "result types treat all union members alike (R-FOLD); no operator runs a callee in the caller's scope (R-SCOPE). It does NOT "
@@ -44,7 +44,7 @@ prop("C01",
 
 prop("C02",
      [partial(panic.run, name="R-PANIC"), errflow.run, stop.run, scope.run, orpat.run, lock.run, guard.run_execerror, variant.run, guard.run_mustcall, misc.run_looptype, layer.run, round3.run_assigntyping, round6.run_unarycall, round6.run_whobinds, cast.run, round11.run_selfname, round11.run_parsescope],
-     "R-CAST (an int converted to a length / index without a sign test in front of it: a negative constant becomes a huge allocation and a capacity panic). R-UNARYCALL / R-WHOBINDS: a callee's body never runs in the caller's scope, names are bound only by declaring constructs. Also R-ASSIGNTYPING (a compound assignment admitting operands its operator does not type ends in a failed downcast). Decides: the complete inventory of panic-capable sites (383 today) is matched per function and signature to a reviewed "
+     "R-SELFNAME / R-PARSESCOPE: a running declaration never overwrites a parameter with the function's own name; Code::parse folds a statement against a copy of the scope taken before the statement was created. R-CAST (an int converted to a length / index without a sign test in front of it: a negative constant becomes a huge allocation and a capacity panic). R-UNARYCALL / R-WHOBINDS: a callee's body never runs in the caller's scope, names are bound only by declaring constructs. Also R-ASSIGNTYPING (a compound assignment admitting operands its operator does not type ends in a failed downcast). Decides: the complete inventory of panic-capable sites (383 today) is matched per function and signature to a reviewed "
      "justification naming the check that discharges it (R-PANIC); no error or control signal is dropped (R-ERRFLOW); ExecStop is "
      "raised and caught only where the control-flow table says, with the documented routing (R-STOP); no callee declares into the "
      "caller's scope (R-SCOPE); no universal check is written as an overlapping or-pattern (R-ORPAT); nothing can panic while a "
@@ -56,7 +56,7 @@ prop("C02",
 
 prop("C03",
      [pairflowrule.run, tables.run_dispatch, tables.run_precedence, partial(panic.run, name="R-PANIC"), guard.run_mustcall, queryguard.run, round11.run_queryimpl, fold.run, errflow.run, parsepure.run, variant.run, round3.run_childkeep, round10.run_retkind],
-     "R-RETKIND (an operator typed with a constant type whose kernel can build another kind: the folded value fails a downcast while parsing). R-CHILDKEEP (a statement or declaration filtered out of a module / block while it is created is still referred to by what stays: the folding pass then looks up a name that was never declared). Decides: every alternative the grammar can hand to a pair-walking function has an arm there (R-TABLES-D: primary, line/stm/"
+     "R-QUERYIMPL: on every path on which an operator's admissibility predicate answers true, each Type query its result type unwraps was seen to be Some (operands not swapped). R-RETKIND (an operator typed with a constant type whose kernel can build another kind: the folded value fails a downcast while parsing). R-CHILDKEEP (a statement or declaration filtered out of a module / block while it is created is still referred to by what stays: the folding pass then looks up a name that was never declared). Decides: every alternative the grammar can hand to a pair-walking function has an arm there (R-TABLES-D: primary, line/stm/"
      "body, type, match_arm, int, var_from_str) and every operator rule is registered in the Pratt parser (R-TABLES); every "
      "panic-capable site on the parse path is a reviewed row (R-PANIC); Type queries are guarded by their admissibility test "
      "(R-MUSTCALL) and treat union members alike (R-FOLD); folding failures are propagated as errors, never unwrapped (R-ERRFLOW); "
@@ -88,7 +88,7 @@ prop("C05",
 
 prop("C06",
      [scope.run, layer.run, round4.run_declvalues, guard.run_mustcall, round6.run_unarycall, round6.run_whobinds, errflow.run, round11.run_identorder, round11.run_selfname, round11.run_parsescope],
-     "R-ERRFLOW (an error raised while a layer is built or a callee runs is never dropped, so a scope is never left half-built). R-UNARYCALL, R-WHOBINDS. R-MUSTCALL rows: a declared function (re)binds its own name on every path of its creation and folding. R-DECLVALUES: a declaration of several names does not see the names it declares. Decides: Function::exec (runs a body in the given scope) is called only from exec_with_args (fresh interpreter holding self + "
+     "R-IDENTORDER: an identifier is looked up in the enclosing interpreter only when the scopes of the program being parsed do not know it. R-SELFNAME, R-PARSESCOPE (D27, D28). R-ERRFLOW (an error raised while a layer is built or a callee runs is never dropped, so a scope is never left half-built). R-UNARYCALL, R-WHOBINDS. R-MUSTCALL rows: a declared function (re)binds its own name on every path of its creation and folding. R-DECLVALUES: a declaration of several names does not see the names it declares. Decides: Function::exec (runs a body in the given scope) is called only from exec_with_args (fresh interpreter holding self + "
      "params) and the host-call harness (R-SCOPE); each scoping construct creates its layer at check, fold and run time and runs "
      "its inside against the new layer; capture = recreate against the creating interpreter; modules are built from exactly the "
      "dropped layer; lower_layer is a shared reference and insert touches only the own map (R-LAYER, 26 obligations). Does NOT "
@@ -122,7 +122,7 @@ prop("C09",
 
 prop("C10",
      [variance.run, round3.run_meetuse, round4.run_meetcell, round4.run_meetoperand, round4.run_concat, fold.run, round6.run_noabsorb, round6.run_whounion, round11.run_ziplen],
-     "R-MEETOPERAND: the meet of two function types combines results with results and parameters with parameters of both operands. R-WHOUNION: unions are built by Type::concat only. R-FOLD: every Type query answers for a union member-wise (or delegates to exactly one other query); R-NOABSORB. R-CONCAT: the union of two types never drops a member by a `matches` test. R-MEETCELL: the meet never looks inside two cell types. Decides the direction clauses of the subtype relation on a provenance analysis of Type::matches, FunctionType::matches, "
+     "R-ZIPLEN: wherever matches / conjoin pair the parts of their two operands with zip, the lengths of exactly those two sequences are compared. R-MEETOPERAND: the meet of two function types combines results with results and parameters with parameters of both operands. R-WHOUNION: unions are built by Type::concat only. R-FOLD: every Type query answers for a union member-wise (or delegates to exactly one other query); R-NOABSORB. R-CONCAT: the union of two types never drops a member by a `matches` test. R-MEETCELL: the meet never looks inside two cell types. Decides the direction clauses of the subtype relation on a provenance analysis of Type::matches, FunctionType::matches, "
      "StructType::matches and their closures (every value labelled with the operand - left S or right O -, field and variant "
      "payload it comes from; closures inherit the labels of what they capture and of the iterator they are handed to): arrays, "
      "tuples, struct fields, union members and function results are compared (part of S, part of O); function parameters (O, S); "
@@ -136,7 +136,7 @@ prop("C10",
 
 prop("C11",
      [iterops.run_src, iterops.run_loop, iterops.run_pick, forshape.run, partial(panic.run, scope=ITER_SCOPE, name="R-PANIC"), round3.run_iterfold, round4.run_instrstate, parsepure.run],
-     "R-INSTRSTATE: no interior-mutable field in parsed code (a cached fragment / iterator would be shared by all evaluations). Also R-ITERFOLD: no iterator is created, pulled or reduced at fold time. Decides, on the code that implements the iterator operators (13 SimpleSL fragments embedded in the Rust sources, parsed "
+     "R-PARSEPURE: no iterator is built while parsing (it would be shared by every evaluation). R-INSTRSTATE: no interior-mutable field in parsed code (a cached fragment / iterator would be shared by all evaluations). Also R-ITERFOLD: no iterator is created, pulled or reduced at fold time. Decides, on the code that implements the iterator operators (13 SimpleSL fragments embedded in the Rust sources, parsed "
      "with the repository's grammar and analysed path by path; 3 Rust pull loops on the MIR CFG): every iteration pulls its "
      "source at most once and never after the end marker; f / p run only on delivered elements, once each, never on the end "
      "marker's payload; no element is dropped unexamined; map / filter / `? T` / `~` do nothing until their result is pulled; "
@@ -203,7 +203,7 @@ prop("C16",
 prop("C17",
      [partial(witness.run, only=("W2CodeStatic", "W4ExecIsolated")), parsepure.run, misc.run_direction,
       partial(guard.run, only_variants=("WrongNumberOfArguments", "WrongArgument")), guard.run_mustcall, round4.run_instrstate, lock.run_global, layer.run, round4.run_declvalues, round6.run_whobinds, round8.run_shellapi, round11.run_identorder, round11.run_parsescope],
-     "R-SHELLAPI: the shell hands its interpreter only to with_stdlib / Code::parse / Code::exec_unscoped. R-WHOBINDS: executing a program adds no name of its own to the interpreter. R-DECLVALUES. Also: parsed code holds no interior-mutable state (R-INSTRSTATE), there is no global mutable state (R-GLOBAL), and the run-time scope discipline the REPL / batch equivalence relies on (R-LAYER). Decides: isolation by type (Code: 'static; Code::exec(&self) builds its own interpreter; parse takes &Interpreter); "
+     "R-IDENTORDER (REPL route: locals shadow values left in the interpreter), R-PARSESCOPE. R-SHELLAPI: the shell hands its interpreter only to with_stdlib / Code::parse / Code::exec_unscoped. R-WHOBINDS: executing a program adds no name of its own to the interpreter. R-DECLVALUES. Also: parsed code holds no interior-mutable state (R-INSTRSTATE), there is no global mutable state (R-GLOBAL), and the run-time scope discipline the REPL / batch equivalence relies on (R-LAYER). Decides: isolation by type (Code: 'static; Code::exec(&self) builds its own interpreter; parse takes &Interpreter); "
      "repeatability's structural half (no execution at parse time, cells only from Mut::exec); host calls re-check arity and each "
      "argument in the same direction as in-language calls and create_call goes through create_from_variables. Does NOT decide "
      "REPL = batch (a relation over histories).",
@@ -225,8 +225,8 @@ prop("C19",
      "field-projection and callee inspection of the PartialEq impls", "")
 
 prop("C20",
-     [partial(tables.run_dispatch, only=("var_from_str", "int")), misc.run_render, partial(panic.run, scope=scope_prefix("<variable::Variable as std::convert::TryFrom<pest", "<variable::Variable as std::str::FromStr"), name="R-PANIC"), cast.run, misc.run_escapes],
-     "Decides the table clauses: every alternative of the value-literal grammar has a constructor arm in Variable::try_from(Pair); "
+     [partial(tables.run_dispatch, only=("var_from_str", "int")), misc.run_render, partial(panic.run, scope=scope_prefix("<variable::Variable as std::convert::TryFrom<pest", "<variable::Variable as std::str::FromStr"), name="R-PANIC"), cast.run, misc.run_escapes, round11.run_depthstep],
+     "R-DEPTHSTEP: the rendering depth budget is spent one unit per container level and the cut-off is not below 5 levels. Decides the table clauses: every alternative of the value-literal grammar has a constructor arm in Variable::try_from(Pair); "
      "int literal forms are parsed with radix 2/8/10/16 matching their prefixes and overflow is an Err; arrays / tuples render "
      "elements through Variable::debug and debug uses {:?} for int / float / string. The print/parse round trip itself (escaping, "
      "float text, MIN_INT) is value-level and NOT decided.",
